@@ -21,7 +21,7 @@ func (e *executor[R]) PreExecute(exec policy.ExecutionInternal[R]) *common.Polic
 	if err := e.AcquirePermitWithMaxWait(exec.Context(), e.maxWaitTime); err != nil {
 		if e.onFull != nil && errors.Is(err, ErrFull) {
 			e.onFull(failsafe.ExecutionEvent[R]{
-				ExecutionAttempt: exec,
+				ExecutionAttempt: exec.CopyWithResult(nil),
 			})
 		}
 		return internal.FailureResult[R](err)
